@@ -46,6 +46,7 @@ def run_case(rng, res, idx, tier):
     for c in range(1, T + 1):
         sp = copy.deepcopy(spec)
         sp['factor_dir'] = rng.random() < 0.4
+        sp['load_same_object'] = rng.random() < 0.5
         compute = not (I == 1 and rng.random() < 0.3) and not (c % I == 0 and rng.random() < 0.2)
         tail = [('train',)] * (T - c) + [('train',)]
         # periodic saving: the same object may be asked for its state several times before the checkpoint that is restored
@@ -108,6 +109,10 @@ def run_case(rng, res, idx, tier):
         for r in range(W):
             held.update(e0[r]['held'])
         for r in range(W):
+            ok_, missing_ = e0[r].get('loaded_state_intact', (True, []))
+            res.count('loaded_state_intact_checks')
+            if not ok_:
+                return res.violation(f'rank {r}: load_state_dict modified the state it was given (keys removed: {missing_}); an in-memory checkpoint could not be loaded a second time', case)
             after = e0[r].get('after_load', {})
             if e0[r].get('steps_after_load') != c:
                 return res.violation(f'rank {r}: steps after load = {e0[r].get("steps_after_load")}, checkpoint was taken at {c}', case)
